@@ -538,6 +538,14 @@ impl<TStdlib: Stdlib, TStdIn: Input, TStdOut: Printer, TLpt1: Printer>
                 self.take_last_error_address().with_err_at(&pos)?;
                 ctx.opt_next_index = Some(resume_label.address());
                 self.context.pop();
+                // the label is in the module: the procedures that were active
+                // when the error happened are abandoned, not returned from
+                self.context.pop_to_module();
+                self.return_address_stack.clear();
+                self.go_sub_address_stack.retain(|(_, depth)| *depth == 0);
+                self.stacktrace.clear();
+                self.saved_statement_marks.clear();
+                self.saved_print_states.clear();
             }
             Instruction::Throw(interpreter_error) => {
                 return Err(interpreter_error.clone()).with_err_at(&pos);
